@@ -171,8 +171,19 @@ static std::string tweak(Rng& r, const std::string& s, const char* alphabet) {
 UriParts edit_one(Rng& r, const UriParts& p0, std::string* what) {
     UriParts p = p0;
     for (int tries = 0; tries < 20; tries++) {
-        int k = r.range(0, 13);
+        int k = r.range(0, 14);
         switch (k) {
+        case 14: {   // a component grown by exactly 256 (or 512, 65536) characters: lengths that agree modulo a narrow counter
+            int n = r.pick(std::vector<int>{256, 256, 512, 65536}); if (n > 600 && !r.chance(100)) n = 256;
+            std::string pad((size_t)n, 'a');
+            int w = r.range(0, 5);
+            if (w == 0 && p.has_auth) { if (!p.has_user) { p.has_user = true; p.user = "u"; } p.user += pad; *what = "userinfo+256k"; return p; }
+            if (w == 1 && p.has_auth && !p.host.empty() && p.host[0] != '[') { p.host += pad; *what = "host+256k"; return p; }
+            if (w == 2 && !p.segs.empty()) { p.segs[r.below((uint32_t)p.segs.size())] += pad; *what = "segment+256k"; return p; }
+            if (w == 3) { p.has_query = true; p.query += pad; *what = "query+256k"; return p; }
+            if (w == 4) { p.has_frag = true; p.frag += pad; *what = "fragment+256k"; return p; }
+            if (w == 5 && p.has_scheme) { p.scheme += pad; *what = "scheme+256k"; return p; }
+            break; }
         case 0: if (p.has_scheme) { p.scheme = tweak(r, p.scheme, "abcxyzABC"); *what = "scheme"; return p; } break;
         case 1: if (p.has_auth) { if (p.has_user && r.chance(300)) p.has_user = false; else { p.user = p.has_user ? tweak(r, p.user, "uvw:") : (r.chance(500) ? "" : "u"); p.has_user = true; } *what = "userinfo"; return p; } break;
         case 2: if (p.has_auth && !p.host.empty() && p.host[0] == '[') {   // IP literal: change a digit near the end or near the start
